@@ -348,6 +348,8 @@ pub fn any_token(rng: &mut Rng) -> String {
         ".breakx", "$", "%10", "(", "x1g", "0xz", "#x10", "#0x10", "xé", "0x😀", "x1é", "#é", "#1é", "r1é", "\"é", "\0",
         "r1\0", "x\0", ".blkw xFFFF", ".blkw x7FFF", ".blkw #-1", ".stringz \"\"", ".fill \"s\"", ".blkw r1", ".stringz x1",
         ".stringz lbl", "trap", "trap x25", "trap xFF", "trap x100", "trap #-1", "br #-2", "br #-300", "halt", "rets",
+        "65536", "4294967295", "4294967296", "18446744073709551616", "99999999999999999999999", "#4294967296",
+        "x100000000", "0x10000000000000000", "340282366920938463463374607431768211456", "0000000000000000000000001",
     ];
     match rng.below(7) {
         0 => {
